@@ -567,11 +567,32 @@ func (m *Machine) instr(fr *frame, in ssa.Instruction) {
 				it.order = m.ex.Permutation(len(mp.keys))
 			}
 			fr.env.put(x, it)
+		} else if st, ok := v.(Str); ok {
+			// range over a string: decoded rune by rune; only ASCII bytes are modelled (a byte >= 0x80 ends the path
+			// as inconclusive - UTF-8 decoding of symbolic bytes is not encoded)
+			n := m.ex.Concretize(st.n, 1<<16, "range string len")
+			it := &MapIter{str: &st}
+			it.order = make([]int, n)
+			fr.env.put(x, it)
 		} else {
-			panic(&Inconclusive{"range over string unsupported"})
+			panic(&Inconclusive{"range over this type unsupported"})
 		}
 	case *ssa.Next:
 		it := m.get(fr, x.Iter).(*MapIter)
+		if it.str != nil {
+			if it.pos >= len(it.order) {
+				fr.env.put(x, Tuple{Bool(false), i64_0, BV(32, 0)})
+			} else {
+				b := Select(it.str.arr, Bin("bvadd", it.str.off, I64(int64(it.pos))))
+				if m.ex.Branch(Cmp("bvult", b, BV(8, 0x80)), "range string: ascii") {
+					fr.env.put(x, Tuple{Bool(true), I64(int64(it.pos)), ZExt(32, b)})
+					it.pos++
+				} else {
+					panic(&Inconclusive{"range over a string with a non-ASCII byte (UTF-8 decoding not modelled)"})
+				}
+			}
+			return
+		}
 		if it.pos >= len(it.order) {
 			fr.env.put(x, Tuple{Bool(false), zero(x.Type().(*types.Tuple).At(1).Type()), zero(x.Type().(*types.Tuple).At(2).Type())})
 		} else {
